@@ -238,9 +238,12 @@ def check_C12(tier, seed):
     mcs.append(("Controllers.tla", "MC_Controllers.cfg"))
     # acknowledgement generation (what loss detection feeds on): extension of the recovery specification
     mcs.append(("Ack.tla", "MC_Ack.cfg"))
+    # explicit congestion notification (the other congestion signal): extension, see DESIGN 0.8
+    mcs += [("Ecn.tla", "MC_Ecn.cfg"), ("Ecn.tla", "MC_Ecn_hostile.cfg"), ("Ecn.tla", "MC_Ecn_bleached.cfg")]
     ccv, cccov = cc_stage(tier, seed, r)
     res = generic("C12", tier, seed, mcs, scripts,
-                   [("recovery", "RecoveryTrace.tla", "RecoveryTrace.cfg"), ("acks", "AckTrace.tla", "AckTrace.cfg")],
+                   [("recovery", "RecoveryTrace.tla", "RecoveryTrace.cfg"), ("acks", "AckTrace.tla", "AckTrace.cfg"),
+                    ("ecn", "EcnTrace.tla", "EcnTrace.cfg")],
                    ["outstanding packets and in-flight counters are read through the verif-hooks probe before and after every call",
                     "exemptions from the gate are recognised from the independent decoder's frame list (CONNECTION_CLOSE, PATH_CHALLENGE/RESPONSE, padded PING larger than the current MTU) and from the probe's loss_probes budget",
                     "a run counts as clean when no datagram was dropped, duplicated, delayed, corrupted or injected and latency is constant"],
@@ -397,7 +400,8 @@ def replay_C05(scripts):
 
 def replay_C12(scripts):
     return generic("C12", "quick", 0, [], scripts, [("recovery", "RecoveryTrace.tla", "RecoveryTrace.cfg"),
-                                                     ("acks", "AckTrace.tla", "AckTrace.cfg")], [], shards=1, probe=2)
+                                                     ("acks", "AckTrace.tla", "AckTrace.cfg"),
+                                                     ("ecn", "EcnTrace.tla", "EcnTrace.cfg")], [], shards=1, probe=2)
 
 
 def replay_C11(scripts):
